@@ -16,6 +16,7 @@ from contracts import conn_model as cm
 
 PROPERTY = "C20"
 LEVEL = "proof"
+BOUNDED = [{"function": "aioesphomeapi.host_resolver.async_resolve_host", "engine": "native enumeration (fallback only, when a proof step does not go through)", "bound": "host lists of length <= 2 (3 in the thorough tier) over 6 host forms x 3 mDNS outcomes x 3 OS outcomes"}]
 HR = "aioesphomeapi.host_resolver."
 ZC = "aioesphomeapi.zeroconf."
 UT = "aioesphomeapi.util."
@@ -408,5 +409,7 @@ def _targets_rest(eng, names):
             eng_.obligations.extend(e2.obligations)
             eng_.assumptions_used |= e2.assumptions_used
             eng_.bounded_used = getattr(eng_, "bounded_used", []) + list(getattr(e2, "bounded_used", []))
-        out.append(Target(rc.target.replace("aioesphomeapi.", "") + (f"[{rc.label}]" if rc.label else ""), "contract", run, functions=[rc.target]))
+        from contracts import native_resolve
+        out.append(Target(rc.target.replace("aioesphomeapi.", "") + (f"[{rc.label}]" if rc.label else ""), "contract", run, functions=[rc.target],
+                          bounded=(native_resolve.bounded_resolve if rc.target.endswith("async_resolve_host") else None)))
     return out
